@@ -285,17 +285,61 @@ def reinsert : List (Option Vec) → Vec → Option (List (Option Rat))
   | some _ :: _, [] => none
   | some _ :: rest, v :: vals => (reinsert rest vals).map (some v :: ·)
 
+/-! ### `moo_lower_bounds` (CBO) = `moo_upper_bounds` (optimizer, negated): penalty after scaling -/
+
+/-- `[m if b is None else b for m, b in zip(y_max, self._moo_upper_bounds)]` -/
+def upperBounds (bounds : List (Option Rat)) (yMax : Vec) : Vec :=
+  List.zipWith (fun m b => match b with | some v => v | none => m) yMax bounds
+
+/-- `MinMaxScaler.transform` of one further row with the parameters fitted on `rows` -/
+def scaleRowMinMax (rows : List Vec) (x : Vec) : Option Vec :=
+  match colMin rows, colMax rows with
+  | some mn, some mx =>
+    let sc := List.zipWith mmScale mn mx
+    let off := List.zipWith (fun m s => 0 - m * s) mn sc
+    some (List.zipWith (· + ·) (List.zipWith (· * ·) x sc) off)
+  | _, _ => none
+
+/-- `penalty = np.sum(2 * np.maximum(y - upper_bounds, 0))`, added to every component of the row -/
+def penalise (ub : Vec) (r : Vec) : Vec :=
+  let p := sumL (List.zipWith (fun y b => 2 * rmax (y - b) 0) r ub)
+  r.map (· + p)
+
+/-- `_moo_scalarize` with `moo_upper_bounds` ("Strategy 1: penalty after scaling").  `ubGiven` is the
+scaled bound vector when the scaler is an environment input (`quantile-uniform`). -/
+def mooTargetsB (sc : Scaler) (s : Strategy) (w : Vec) (bounds : List (Option Rat)) (ubGiven : Vec)
+    (told : List Vec) : Option Vec :=
+  match applyScaler sc told, colMax told with
+  | some scaled, some yMax =>
+    let ub := upperBounds bounds yMax
+    let ubS : Option Vec := match sc with
+      | .identity => some ub
+      | .minmax => scaleRowMinMax told ub
+      | .given _ => some ubGiven
+    match ubS with
+    | none => none
+    | some ubS =>
+      let pen := scaled.map (penalise ubS)
+      match colMin pen with
+      | none => none
+      | some u => mapOpt (scalarize s w u) pen
+  | _, _ => none
+
 /-- What the surrogate is fitted on for a history WITH failures (`Optimizer._tell`):
 the objective scaler / scalarisation see the successful rows only, the results go back to their
 positions, and `_filter_failures` imputes the failures.  `userMode` is CBO's `filter_failures`
 (`"min"`, `"mean"`, …), mapped by `mapFilterFailures` before it reaches the optimizer. -/
 def fitTargets (single : Bool) (sc : Scaler) (s : Strategy) (w : Vec) (userMode : String)
-    (maxFailures : Nat) (told : List (Option Vec)) : Except String Vec :=
+    (maxFailures : Nat) (told : List (Option Vec))
+    (bounds : Option (List (Option Rat)) := none) (ubGiven : Vec := []) : Except String Vec :=
   let ok := told.filterMap id
   match ok with
   | [] => .error "no successful observation to fit the objective scaler on"
   | _ =>
-    let t := if single then singleTargets sc (ok.map sumL) else mooTargets sc s w ok
+    let t := if single then singleTargets sc (ok.map sumL) else
+      match bounds with
+      | none => mooTargets sc s w ok
+      | some b => mooTargetsB sc s w b ubGiven ok
     match t with
     | none => .error "targets"
     | some tv =>
@@ -308,6 +352,51 @@ def fitTargets (single : Bool) (sc : Scaler) (s : Strategy) (w : Vec) (userMode 
           match mapOpt id out with
           | some v => .ok v
           | none => .error "a failure string reaches the estimator"
+
+/-! ### several fits on a growing history -/
+
+/-- The targets of every surrogate fit of a history told in batches (one fit per batch): the state
+carried from one fit to the next is the list of told values and nothing else — objective scaler,
+utopia point and failure imputation are recomputed by `fit` from the full history. -/
+def fitsFrom {α : Type} (fit : List (Option Vec) → α) (told : List (Option Vec)) :
+    List (List (Option Vec)) → List α
+  | [] => []
+  | b :: bs => fit (told ++ b) :: fitsFrom fit (told ++ b) bs
+
+def fitsOf {α : Type} (fit : List (Option Vec) → α) (batches : List (List (Option Vec))) : List α :=
+  fitsFrom fit [] batches
+
+/-- the behaviour of a scalarisation object that keeps the utopia point of its FIRST fit (the bug
+class "stale utopia point"; identity scaler, no failures) — regression witness only -/
+def fitsStaleUtopia (s : Strategy) (w : Vec) (batches : List (List Vec)) : List (Option Vec) :=
+  match batches with
+  | [] => []
+  | b :: _ =>
+    match colMin b with
+    | none => []
+    | some u =>
+      let rec go (told : List Vec) : List (List Vec) → List (Option Vec)
+        | [] => []
+        | c :: cs => mapOpt (scalarize s w u) (told ++ c) :: go (told ++ c) cs
+      go [] batches
+
+/-! ### verified checker for the proposal (used by the harness on the real `CBO.ask`) -/
+
+def isSucc (succ : List Bool) (c : Nat) : Bool :=
+  match succ[c]? with
+  | some b => b
+  | none => false
+
+/-- `chosen` is one of the candidates, was evaluated successfully, and no successful candidate has
+a larger score -/
+def checkChoice (score : Vec) (succ : List Bool) (cands : List Nat) (chosen : Nat) : Bool :=
+  cands.contains chosen && isSucc succ chosen &&
+  match score[chosen]? with
+  | none => false
+  | some s => cands.all (fun c => !isSucc succ c ||
+      match score[c]? with
+      | some s' => decide (s' ≤ s)
+      | none => false)
 
 /-! ### acquisition and choice -/
 
